@@ -116,6 +116,12 @@ def i_AAD(i, fmap):
 def i_AAM(i, fmap):
     fmap[eip] = fmap[eip] + i.length
     imm8 = i.operands[0]
+    if imm8 == 0:
+        # divide error (#DE, not modelled): the results are unknown
+        fmap[ax] = top(16)
+        fmap[zf] = top(1)
+        fmap[sf] = top(1)
+        return
     _al = fmap(al)
     fmap[ah] = _al / imm8
     _r = _al & (imm8 - 1)
